@@ -1,92 +1,23 @@
-(* Model of ring/ring.go (creachadair/mds): Ring[T] as cells (Value, prev, next) in a heap indexed
-   by address, nil = None.  Every exported function and the helpers newRing/scan are mirrored
-   statement by statement as heap-passing computations; a nil dereference is [Panic], a dangling
-   address (impossible in Go) is [Fault], an exhausted loop budget is [OutOfFuel].
-   Every branch condition, the counter arithmetic and the sign handling of At come from
-   Gen/RingIdx.v (regenerated from the Go source on every run); pointers are passed to those
-   conditions as numbers ([enc]: nil = 0, address a = a+1).
+(* The functions of ring/ring.go written out by hand on the heap of Ring/RingBase.v, statement by
+   statement (pointer assignments included): the form the proofs of Ring/RingProofs*.v work on.
+   This is NOT the model: the model is Ring/RingModel.v, where every right-hand side and return
+   value is the definition the translator generates from the Go source; Ring/RingProofsTie.v proves
+   that the model equals these functions (and stops compiling when the source changes).
+   Conditions and counter arithmetic come from Gen/RingIdx.v here too.
    Definitions only. *)
 From Coq Require Import ZArith List Bool Arith.
 Import ListNotations.
-From Mds Require Import Gen.RingIdx.
+From Mds Require Import Gen.RingIdx Ring.RingBase.
+Import RingNotations.
 
-Definition addr := nat.
-Definition ptr := option addr.
-
-Definition enc (p : ptr) : Z :=
-  match p with None => 0%Z | Some a => Z.pos (Pos.of_succ_nat a) end.
-Definition znil : Z := 0%Z.
-
-Inductive res (A : Type) : Type :=
-| Ok (a : A)
-| Panic        (* nil pointer dereference *)
-| Fault        (* an address that was never allocated: cannot happen in Go *)
-| OutOfFuel.   (* a loop ran longer than its budget: a hang *)
-Arguments Ok {A} a.
-Arguments Panic {A}.
-Arguments Fault {A}.
-Arguments OutOfFuel {A}.
-
-Section Model.
+Section Plain.
 Variable T : Type.
 Variable zero : T.   (* the zero value of T *)
-
-Record cell := mkCell { val : T; prev : ptr; next : ptr }.
-
-(* The heap: the list of cells allocated so far; the address of a cell is its index. *)
-Definition heap := list cell.
-Definition size (h : heap) : nat := length h.
-Definition empty_heap : heap := [].
-Definition lookup (h : heap) (a : addr) : option cell := nth_error h a.
-Fixpoint upd (h : heap) (a : addr) (c : cell) : heap :=
-  match h, a with
-  | [], _ => []
-  | _ :: t, O => c :: t
-  | x :: t, S a' => x :: upd t a' c
-  end.
-
-(* Heap-passing computations; the heap reached so far survives a panic. *)
-Definition M (A : Type) := heap -> heap * res A.
-Definition ret {A} (a : A) : M A := fun h => (h, Ok a).
-Definition bind {A B} (m : M A) (f : A -> M B) : M B :=
-  fun h => match m h with
-           | (h', Ok a) => f a h'
-           | (h', Panic) => (h', Panic)
-           | (h', Fault) => (h', Fault)
-           | (h', OutOfFuel) => (h', OutOfFuel)
-           end.
-Definition out_of_fuel {A} : M A := fun h => (h, OutOfFuel).
-Definition heap_size : M nat := fun h => (h, Ok (size h)).
-
-Notation "x <- m ;; f" := (bind m (fun x => f)) (at level 61, m at next level, right associativity).
-Notation "m ;;; f" := (bind m (fun _ => f)) (at level 61, right associativity).
-
-(* p.field *)
-Definition load (p : ptr) : M cell := fun h =>
-  match p with
-  | None => (h, Panic)
-  | Some a => match lookup h a with Some c => (h, Ok c) | None => (h, Fault) end
-  end.
-(* p.field = ... *)
-Definition store (p : ptr) (f : cell -> cell) : M unit := fun h =>
-  match p with
-  | None => (h, Panic)
-  | Some a => match lookup h a with
-              | Some c => (upd h a (f c), Ok tt)
-              | None => (h, Fault)
-              end
-  end.
-
-Definition get_next (p : ptr) : M ptr := c <- load p ;; ret (next c).
-Definition get_prev (p : ptr) : M ptr := c <- load p ;; ret (prev c).
-Definition get_val (p : ptr) : M T := c <- load p ;; ret (val c).
-Definition set_next (p q : ptr) : M unit := store p (fun c => mkCell (val c) (prev c) q).
-Definition set_prev (p q : ptr) : M unit := store p (fun c => mkCell (val c) q (next c)).
-Definition set_val (p : ptr) (v : T) : M unit := store p (fun c => mkCell v (prev c) (next c)).
-
-(* new(Ring[T]) *)
-Definition alloc : M ptr := fun h =>
-  (h ++ [mkCell zero None None], Ok (Some (size h))).
+Notation M := (M T).
+Notation alloc := (alloc T zero).
+Notation heap := (heap T).
+Notation op := (op T).
+Notation out := (out T).
 
 (* func newRing[T any]() *Ring[T] { r := new(Ring[T]); r.next = r; r.prev = r; return r } *)
 Definition new_ring : M ptr :=
@@ -120,13 +51,6 @@ Fixpoint of_loop (vs : list T) (cur : ptr) : M unit :=
 
 Definition of (vs : list T) : M ptr :=
   r <- new (of_len (Z.of_nat (length vs))) ;; of_loop vs r ;;; ret r.
-
-Definition ptr_eqb (p q : ptr) : bool :=
-  match p, q with
-  | None, None => true
-  | Some a, Some b => Nat.eqb a b
-  | _, _ => false
-  end.
 
 (* Join.  [r == s || r.next == s] short-circuits: r.next is read only when r != s. *)
 Definition join (r s : ptr) : M ptr :=
@@ -181,7 +105,6 @@ Definition at_loop := at_loop_gen (fun z => z).
 Definition at_ (r : ptr) (n : Z) : M ptr := at_gen (fun z => z) r n.
 
 (* the same code on 64-bit ints: every new counter value wraps around modulo 2^64 *)
-Definition wrap64 (z : Z) : Z := ((z + 2 ^ 63) mod 2 ^ 64 - 2 ^ 63)%Z.
 Definition at64 (r : ptr) (n : Z) : M ptr := at_gen wrap64 r n.
 
 Definition peek_gen (norm : Z -> Z) (r : ptr) (n : Z) : M (T * bool) :=
@@ -219,41 +142,9 @@ Definition each (r : ptr) (lim : nat) : M (list T) :=
 
 Definition len (r : ptr) : M Z :=
   if len_nil (enc r) znil then ret 0%Z
-  else scan r (fun (n : Z) _ => ret (len_inc n, true)) 0%Z.
+  else n <- scan r (fun (n : Z) _ => ret (len_inc n, true)) 0%Z ;; ret n.
 
 Definition is_empty (r : ptr) : M bool := ret (isempty_ret (enc r) znil).
-
-(* ---- histories ---- *)
-Inductive op :=
-| ONew (n : Z) | OOf (vs : list T)
-| OJoin (r s : ptr) | OPop (r : ptr)
-| ONext (r : ptr) | OPrev (r : ptr)
-| OAt (r : ptr) (n : Z) | OPeek (r : ptr) (n : Z)
-| OLen (r : ptr) | OEach (r : ptr) (lim : nat) | OIsEmpty (r : ptr).
-
-Inductive out :=
-| RPtr (p : ptr) | RPeek (v : T) (ok : bool) | RLen (n : Z) | REach (vs : list T) | RBool (b : bool)
-| RPanic | RFault | RFuel.
-
-Definition to_out {A} (f : A -> out) (x : heap * res A) : heap * out :=
-  match x with
-  | (h, Ok a) => (h, f a)
-  | (h, Panic) => (h, RPanic)
-  | (h, Fault) => (h, RFault)
-  | (h, OutOfFuel) => (h, RFuel)
-  end.
-
-(* Go pointers always refer to allocated cells: a history may only mention nil or addresses that
-   New/Of have handed out.  Anything else is answered [RFault] without running the operation. *)
-Definition ptr_ok (h : heap) (p : ptr) : bool :=
-  match p with None => true | Some a => Nat.ltb a (size h) end.
-
-Definition op_ptrs (o : op) : list ptr :=
-  match o with
-  | ONew _ | OOf _ => []
-  | OJoin r s => [r; s]
-  | OPop r | ONext r | OPrev r | OAt r _ | OPeek r _ | OLen r | OEach r _ | OIsEmpty r => [r]
-  end.
 
 Definition exec (h : heap) (o : op) : heap * out :=
   match o with
@@ -279,20 +170,8 @@ Fixpoint run (h : heap) (ops : list op) : list out :=
   | o :: ops' => let (h', r) := step h o in r :: run h' ops'
   end.
 
-End Model.
+End Plain.
 
-Arguments val {T}. Arguments prev {T}. Arguments next {T}. Arguments mkCell {T}.
-Arguments size {T}. Arguments empty_heap {T}. Arguments lookup {T}. Arguments upd {T}.
-Arguments ret {T A}. Arguments bind {T A B}. Arguments out_of_fuel {T A}. Arguments heap_size {T}.
-Arguments load {T}. Arguments store {T}.
-Arguments get_next {T}. Arguments get_prev {T}. Arguments get_val {T}.
-Arguments set_next {T}. Arguments set_prev {T}. Arguments set_val {T}.
 Arguments of_loop {T}. Arguments join {T}. Arguments pop {T}. Arguments next_of {T}. Arguments prev_of {T}.
 Arguments at_loop_gen {T}. Arguments at_gen {T}. Arguments at_loop {T}. Arguments at_ {T}. Arguments at64 {T}. Arguments scan_loop {T A}. Arguments scan {T A}.
 Arguments each {T}. Arguments len {T}. Arguments is_empty {T}.
-Arguments ONew {T}. Arguments OOf {T}. Arguments OJoin {T}. Arguments OPop {T}. Arguments ONext {T}.
-Arguments OPrev {T}. Arguments OAt {T}. Arguments OPeek {T}. Arguments OLen {T}. Arguments OEach {T}.
-Arguments OIsEmpty {T}.
-Arguments RPtr {T}. Arguments RPeek {T}. Arguments RLen {T}. Arguments REach {T}. Arguments RBool {T}.
-Arguments RPanic {T}. Arguments RFault {T}. Arguments RFuel {T}.
-Arguments to_out {T A}. Arguments ptr_ok {T}. Arguments op_ptrs {T}.
